@@ -213,7 +213,7 @@ func TestC07(t *testing.T) {
 
 	p = c.rec.NewPart("rapid_fragments", "rapid over the HTML fragment grammar", true, false, "")
 	g := gen.HTMLInput()
-	c.Rapid(p, 8, pick(30000, 1200000), func(rt *rapid.T, sh int) ev.Case {
+	c.Rapid(p, 8, pick(60000, 1500000), func(rt *rapid.T, sh int) ev.Case {
 		s := g.Draw(rt, "in")
 		if gen.HasUnicodeFold(s) {
 			s = ""
@@ -221,7 +221,7 @@ func TestC07(t *testing.T) {
 		return htmlCase(s)
 	})
 	p = c.rec.NewPart("rapid_corpus_mutation", "rapid: a repository HTML fixture or XSS payload with 1-4 edits", true, false, "")
-	c.Rapid(p, 4, pick(15000, 500000), func(rt *rapid.T, sh int) ev.Case {
+	c.Rapid(p, 4, pick(40000, 600000), func(rt *rapid.T, sh int) ev.Case {
 		s := gen.Mutate(rt, rapid.SampledFrom(corp().HTML).Draw(rt, "base"), gen.FragHTML)
 		if gen.HasUnicodeFold(s) {
 			s = ""
@@ -232,7 +232,7 @@ func TestC07(t *testing.T) {
 	p = c.rec.NewPart("rapid_leaf_predicates", "rapid: names near the black lists (listed name / near miss, NULs, case, edits) and URL values, judged by the leaf predicates", true, false, "")
 	tg, ag, eg := nameGen(tags), nameGen(attrs), nameGen(events)
 	ug := urlValueGen()
-	c.Rapid(p, 4, pick(15000, 400000), func(rt *rapid.T, sh int) ev.Case {
+	c.Rapid(p, 4, pick(40000, 600000), func(rt *rapid.T, sh int) ev.Case {
 		var cs ev.Case
 		switch rapid.IntRange(0, 3).Draw(rt, "leaf") {
 		case 0:
